@@ -75,10 +75,14 @@ class Ctx:
 
 
 # ---------------------------------------------------------------------------------------- G1
-def run_g1(ctx, names, registry_modules=("contracts.variational", "contracts.util")):
+ALL_CONTRACTS = ("contracts.variational", "contracts.util", "contracts.phasing", "contracts.rescaling",
+                 "contracts.demography", "contracts.discrete", "contracts.approx")
+
+
+def run_g1(ctx, names, registry_modules=ALL_CONTRACTS):
     from contracts.base import REGISTRY
     from . import g1, smt
-    for m in registry_modules:
+    for m in tuple(registry_modules) + ALL_CONTRACTS:
         importlib.import_module(m)
     all_obs = []
     units = []
